@@ -51,6 +51,7 @@ func (r *RateLimitedTokenRequest) Marshal() []byte {
 }
 
 func (r *RateLimitedTokenRequest) Unmarshal(data []byte) bool {
+	r.raw = nil // forget the cached encoding of whatever the object held before
 	s := cryptobyte.String(data)
 
 	var tokenType uint16
